@@ -202,21 +202,8 @@ def ts_case(rng):
     return {"g": g, "ts": [list(t) for t in ts], "max_lag": max_lag, "src": "ts"}
 
 
-def gen_cases(ctx):
-    tier, rng = ctx["tier"], ctx["rng"]
-    for n in (1, 2, 3):
-        for g in C.enum_graphs(n, C.PAG_STATES):
-            yield {"g": g, "Q": all_queries(n), "src": "exh%d" % n}
-    fams = C.Labels.FAMILIES
-    if tier == "thorough":
-        for g in C.enum_graphs(4, C.PAG_STATES):
-            yield {"g": g, "Q": all_queries(4), "src": "exh4"}
-        plan = ((4, 2000, 0), (5, 8000, 5000), (6, 2500, 2500), (7, 200, 400))
-        nts = 3000
-    else:
-        plan = ((4, 1500, 0), (5, 1200, 800), (6, 150, 300), (7, 0, 0))
-        nts = 200
-    i = 0
+def rand_stream(rng, plan, nts, fams, i0=0):
+    i = i0
     for n, cnt, cnt_chain in plan:
         for j in range(cnt + cnt_chain):
             i += 1
@@ -231,6 +218,20 @@ def gen_cases(ctx):
         rng.shuffle(qs)
         c["Q"] = sorted(qs[:40], key=lambda q: (q[0], -1 if q[1] is None else q[1]))
         yield c
+
+
+def gen_cases(ctx):
+    """exhaustive <=3 nodes, the quick-sized random stream, then (thorough) all 4-node PAGs and more random"""
+    tier, rng = ctx["tier"], ctx["rng"]
+    for n in (1, 2, 3):
+        for g in C.enum_graphs(n, C.PAG_STATES):
+            yield {"g": g, "Q": all_queries(n), "src": "exh%d" % n}
+    fams = C.Labels.FAMILIES
+    yield from rand_stream(rng, ((4, 1500, 0), (5, 1200, 800), (6, 150, 300)), 200, fams)
+    if tier == "thorough":
+        for g in C.enum_graphs(4, C.PAG_STATES):
+            yield {"g": g, "Q": all_queries(4), "src": "exh4"}
+        yield from rand_stream(rng, ((5, 6000, 4000), (6, 1500, 2000), (7, 100, 300)), 2000, fams, i0=11)
 
 
 # ----------------------------------------------------------------------------- judging
@@ -358,6 +359,9 @@ def run(ctx):
                 if k[5] not in first_known or (case["src"] == "corpus" and first_known[k[5]][1] != "corpus"):
                     first_known[k[5]] = (k, case["src"])
         if allvio:
+            break
+        if C.time.time() > ctx["deadline"]:
+            ev.extra["truncated_by_deadline"] = True
             break
     cases = [first_case] if first_case else []
     if not ev.samples and cases:
